@@ -127,6 +127,14 @@ func Conv(X, W, B *T, a ConvAttrs) (*T, error) {
 					}
 				}
 				if !inside {
+					// a tap on the zero padding: weight times ZERO, which is not "nothing" for a non-finite weight
+					for i := 0; i < nd; i++ {
+						wi[2+i] = kc[i]
+						if a.FlipKernel {
+							wi[2+i] = k[i] - 1 - kc[i]
+						}
+					}
+					sum += 0 * W.F(Ravel(wi, W.Shape))
 					continue
 				}
 				p := X.F(Ravel(xi, X.Shape)) * W.F(Ravel(wi, W.Shape))
